@@ -13,4 +13,4 @@ for o in obs:
         print("   path:", o.trace[-10:]); print("   model:", (o.model or '')[:1500])
 for u in rep.undecided: print("UNDECIDED", u)
 for f in rep.faults: print("FAULT", f)
-import json; print(json.dumps({k:{kk:vv for kk,vv in v.items() if kk in('status','obligations','discharged','variants','reason')} for k,v in rep.functions.items()},indent=1)[:3000])
+import json; print(json.dumps({k:{kk:vv for kk,vv in v.items() if kk in('status','obligations','discharged','variants','reason','locals_remapped')} for k,v in rep.functions.items()},indent=1)[:3000])
